@@ -98,6 +98,102 @@ theorem any_component_sound (R : Policy) (A B : RDom) (q1 : A.D → Bool) (q2 : 
     (x : Prod A B) (h : anyComponent A B R q1 q2 x = true) : P (Γ A x.d1 ∩ Γ B x.d2) :=
   anyComponent_sound A B R q1 q2 P (fun S T hST hT => hP S T (fun p hp => hST p hp) hT) h1 h2 x h
 
+/-- **`relation_with(c)`** (constraint or congruence `c` with point set `S` and hyperplane `H`):
+    the product reports `is_included` / `is_disjoint` / `saturates` as soon as ONE component does;
+    each reported fact is true of the intersection when the component answers are sound. -/
+theorem relation_with_sound (R : Policy) (A B : RDom) (q1 : A.D → Rel3) (q2 : B.D → Rel3) (S H : Set Pt)
+    (h1 : ∀ a, ((q1 a).included = true → Γ A a ⊆ S) ∧ ((q1 a).disjoint = true → Γ A a ∩ S = ∅) ∧
+               ((q1 a).saturates = true → Γ A a ⊆ H))
+    (h2 : ∀ b, ((q2 b).included = true → Γ B b ⊆ S) ∧ ((q2 b).disjoint = true → Γ B b ∩ S = ∅) ∧
+               ((q2 b).saturates = true → Γ B b ⊆ H))
+    (x : Prod A B) :
+    ((relationWith A B R q1 q2 x).included = true → Γ A x.d1 ∩ Γ B x.d2 ⊆ S) ∧
+    ((relationWith A B R q1 q2 x).disjoint = true → (Γ A x.d1 ∩ Γ B x.d2) ∩ S = ∅) ∧
+    ((relationWith A B R q1 q2 x).saturates = true → Γ A x.d1 ∩ Γ B x.d2 ⊆ H) := by
+  have key := fun p hp => relationWith_sound A B R q1 q2 (· ∈ S) (· ∈ H)
+    (fun a => ⟨fun h p hp => (h1 a).1 h hp,
+               fun h p hp hs => by have := (h1 a).2.1 h; exact (Set.eq_empty_iff_forall_notMem.mp this) p ⟨hp, hs⟩,
+               fun h p hp => (h1 a).2.2 h hp⟩)
+    (fun b => ⟨fun h p hp => (h2 b).1 h hp,
+               fun h p hp hs => by have := (h2 b).2.1 h; exact (Set.eq_empty_iff_forall_notMem.mp this) p ⟨hp, hs⟩,
+               fun h p hp => (h2 b).2.2 h hp⟩) x p hp
+  refine ⟨fun h p hp => (key p hp).1 h, fun h => ?_, fun h p hp => (key p hp).2.2 h⟩
+  rw [Set.eq_empty_iff_forall_notMem]
+  rintro p ⟨hp, hs⟩
+  exact (key p hp).2.1 h hs
+
+/-- saturation of the hyperplane of a NON-strict inequality `e ≥ 0` (or of an equality) entails
+    inclusion: a rule the library could use … -/
+theorem saturates_nonstrict_included (e : LE) (X : Set Pt) (h : X ⊆ {p | e.eval p = 0}) :
+    X ⊆ {p | 0 ≤ e.eval p} := fun p hp => le_of_eq (h hp).symm
+
+/-- … whereas for a STRICT inequality `e > 0` saturation entails *disjointness*, never inclusion
+    (a non-empty saturating set is not included): reporting `is_included` on saturation of a strict
+    constraint is wrong. -/
+theorem saturates_strict_disjoint (e : LE) (X : Set Pt) (h : X ⊆ {p | e.eval p = 0}) :
+    X ∩ {p | 0 < e.eval p} = ∅ := by
+  rw [Set.eq_empty_iff_forall_notMem]
+  rintro p ⟨hp, hpos⟩
+  have h0 : e.eval p = 0 := h hp
+  have hpos' : 0 < e.eval p := hpos
+  rw [h0] at hpos'
+  exact lt_irrefl _ hpos'
+
+theorem saturates_strict_not_included :
+    ¬ ∀ (e : LE) (X : Set Pt), X ⊆ {p | e.eval p = 0} → X ⊆ {p | 0 < e.eval p} := by
+  intro h
+  have := h ⟨[], 0⟩ {fun _ => 0} (by intro p _; simp [LE.eval, PPLV.Lin.dot]) (a := fun _ => 0) rfl
+  simp [LE.eval, PPLV.Lin.dot] at this
+
+/-- **`maximize` / `minimize`**: the reported value is a bound of the expression on the intersection,
+    whichever component it is taken from (the library takes the LARGER of the two suprema — sound,
+    though its comment says "minimum"). -/
+theorem optimize_bound_sound (R : Policy) (A B : RDom) (x : Prod A B) (e : LE) (n dn : Int) (incl : Bool) :
+    (prodMaximize A B R x e = some (n, dn, incl) → 0 < dn ∧ ∀ p ∈ Γ A x.d1 ∩ Γ B x.d2, e.eval p * (dn : Rat) ≤ (n : Rat)) ∧
+    (prodMinimize A B R x e = some (n, dn, incl) → 0 < dn ∧ ∀ p ∈ Γ A x.d1 ∩ Γ B x.d2, (n : Rat) ≤ e.eval p * (dn : Rat)) := by
+  constructor
+  · intro h
+    by_cases hne : ∃ p, p ∈ Γ A x.d1 ∩ Γ B x.d2
+    · obtain ⟨p0, hp0⟩ := hne
+      exact ⟨(prodMaximize_sound A B R x e n dn incl h p0 hp0).1, fun p hp => (prodMaximize_sound A B R x e n dn incl h p hp).2⟩
+    · refine ⟨?_, fun p hp => absurd ⟨p, hp⟩ hne⟩
+      -- the denominator is positive by the component oracle, even on an empty intersection
+      unfold prodMaximize at h
+      simp only at h
+      cases hA : A.maximize (reduce A B R x).d1 e with
+      | none =>
+        cases hB : B.maximize (reduce A B R x).d2 e with
+        | none => simp [hA, hB] at h
+        | some rb => simp only [hA, hB, Option.some.injEq] at h; subst h; exact (B.maximize_spec _ e n dn incl hB).1
+      | some ra =>
+        cases hB : B.maximize (reduce A B R x).d2 e with
+        | none => simp only [hA, hB, Option.some.injEq] at h; subst h; exact (A.maximize_spec _ e n dn incl hA).1
+        | some rb =>
+          simp only [hA, hB] at h
+          split at h
+          · simp only [Option.some.injEq] at h; subst h; exact (A.maximize_spec _ e n dn incl hA).1
+          · simp only [Option.some.injEq] at h; subst h; exact (B.maximize_spec _ e n dn incl hB).1
+  · intro h
+    by_cases hne : ∃ p, p ∈ Γ A x.d1 ∩ Γ B x.d2
+    · obtain ⟨p0, hp0⟩ := hne
+      exact ⟨(prodMinimize_sound A B R x e n dn incl h p0 hp0).1, fun p hp => (prodMinimize_sound A B R x e n dn incl h p hp).2⟩
+    · refine ⟨?_, fun p hp => absurd ⟨p, hp⟩ hne⟩
+      unfold prodMinimize at h
+      simp only at h
+      cases hA : A.minimize (reduce A B R x).d1 e with
+      | none =>
+        cases hB : B.minimize (reduce A B R x).d2 e with
+        | none => simp [hA, hB] at h
+        | some rb => simp only [hA, hB, Option.some.injEq] at h; subst h; exact (B.minimize_spec _ e n dn incl hB).1
+      | some ra =>
+        cases hB : B.minimize (reduce A B R x).d2 e with
+        | none => simp only [hA, hB, Option.some.injEq] at h; subst h; exact (A.minimize_spec _ e n dn incl hA).1
+        | some rb =>
+          simp only [hA, hB] at h
+          split at h
+          · simp only [Option.some.injEq] at h; subst h; exact (A.minimize_spec _ e n dn incl hA).1
+          · simp only [Option.some.injEq] at h; subst h; exact (B.minimize_spec _ e n dn incl hB).1
+
 /-- `difference_assign` is component-wise, `(d₁ ∖ y₁, d₂ ∖ y₂)`: that is **not** an
     over-approximation of the difference of the intersections (known finding KF-C10-1; on the real
     library: `x = (ℝ, ℤ)`, `y = ([0,+∞), ℝ)` gives the empty product, the negative integers are lost). -/
